@@ -76,6 +76,7 @@ func c01Exec(c *pcase) (*core.Finding, bool) {
 	if p == nil || !inC01Domain(p) {
 		return nil, false
 	}
+	resetGlobals()
 	tname := bind.TypeNames[p.Type]
 	mk := func(class, what string) *core.Finding {
 		sig := map[string]string{"type": tname, "size": sizeClass(p)}
